@@ -67,7 +67,7 @@ PLAN["C19"] = dict(
 
 PLAN["SELFTEST"] = dict(
     quick=[dict(harnesses=[
-        H("selftest::st_fail_assert"), H("selftest::st_unwind_small"), H("selftest::st_vacuous_cover"), H("selftest::st_oob_read"),
+        H("selftest::st_fail_assert"), H("selftest::st_unwind_small"), H("selftest::st_vacuous_cover"), H("selftest::st_oob_read"), H("selftest::st_cover_then_fail"),
     ])],
     thorough=[], bounds={}, outside=[], stubs=[], assumptions=[],
 )
